@@ -275,3 +275,67 @@ def c17_island_ids(tier, rng):
     if not p and n == 0:
         viol = [{"obligation": "C17.island_ids.nontrivial", "inputs": None, "observed": "no records", "required": "some records", "undecided": True}]
     return {"cases": 1, "bound": "1 pipeline run, 5 reads in 2 islands (%d gene / transcript records)" % n, "violations": viol, "samples": [{"records": n}]}
+
+
+# ---- exon ids on a second run: the ids of the reference are kept, new exons never reuse one of them -----------------------------------------------
+def _exon_ids_case(seed):
+    import random, types
+    rng = random.Random(seed)
+    idp = native.repo_import("src/id_policy.py")
+    chr_id = rng.choice(["chr1", "1", "scaffold.2"])
+    # reference exons as an extended annotation of an earlier run has them: ids <chr>.<n> made by IsoQuant sit on lines of any source
+    # (known transcripts keep the source of the original annotation), next to foreign ids and exons without an id
+    ref, used_n = [], rng.sample(range(1, 12), rng.randint(0, 6))
+    for k, n in enumerate(used_n):
+        a = 100 * (k + 1)
+        ref.append(types.SimpleNamespace(start=a, end=a + 50, strand=rng.choice("+-"), source=rng.choice(["IsoQuant", "HAVANA", "ENSEMBL", "demo"]),
+                                         featuretype="exon", attributes={"exon_id": ["%s.%d" % (chr_id, n)]}))
+    for k in range(rng.randint(0, 3)):
+        a = 5000 + 100 * k
+        ref.append(types.SimpleNamespace(start=a, end=a + 40, strand="+", source="ENSEMBL", featuretype="exon",
+                                         attributes=rng.choice([{"exon_id": ["ENSE%05d" % k]}, {}])))
+    db = types.SimpleNamespace(region=lambda seqid=None, start=None, featuretype=None: list(ref))
+    st = idp.FeatureIdStorage(idp.SimpleIDDistributor(), db, chr_id, "exon")
+    problems = []
+    got = {}
+    asks = [(f.start, f.end, f.strand) for f in ref if rng.random() < .7] + [(9000 + 60 * k, 9000 + 60 * k + 30, rng.choice("+-")) for k in range(rng.randint(1, 8))]
+    rng.shuffle(asks)
+    asks += asks[:2]
+    for a, b, s_ in asks:
+        i = st.get_id(chr_id, (a, b), s_)
+        key = (a, b, s_)
+        if key in got and got[key] != i:
+            problems.append("exon %s got two ids: %s and %s" % (key, got[key], i))
+        got[key] = i
+    ref_ids = {(f.start, f.end, f.strand): f.attributes["exon_id"][0] for f in ref if f.attributes.get("exon_id")}
+    for key, i in got.items():
+        if key in ref_ids and ref_ids[key] != i:
+            problems.append("reference exon %s has id %s in the reference and %s now" % (key, ref_ids[key], i))
+    inv = {}
+    for key, i in list(got.items()) + [(k, v) for k, v in ref_ids.items() if k not in got]:
+        if inv.setdefault(i, key) != key:
+            problems.append("exon id %s names two exons: %s and %s" % (i, inv[i], key))
+    return problems
+
+
+def replay_exon_ids(d):
+    p = _exon_ids_case(d["inputs"]["seed"])
+    return (not p), "seed %s: %s" % (d["inputs"]["seed"], p[:3] or "ids functional, reference ids kept, no id shared by two exons")
+
+
+@bounded("C17.exon_ids_second_run", ["C17"], note="the real FeatureIdStorage filled from a stub reference in which IsoQuant-made ids <chr>.<n> sit on exon lines "
+         "of any source (as in an extended annotation), next to foreign ids and exons without ids; then ids are requested for reference and "
+         "new exons: an exon always gets the same id, a reference exon keeps the reference's id, no id names two different exons")
+def c17_exon_ids(tier, rng):
+    n = 400 if tier == "quick" else 20000
+    base = rng.randrange(10 ** 9)
+    for k in range(n):
+        try:
+            p = _exon_ids_case(base + k)
+        except Exception as e:
+            p = ["exception %s: %s" % (type(e).__name__, e)]
+        if p:
+            return {"cases": k + 1, "bound": "%d reference / request sets" % n, "violations": [{
+                "obligation": "C17.exon_ids_second_run", "inputs": {"seed": base + k}, "observed": p[:3], "required": "exon ids functional, preserved, injective",
+                "replay_call": "contracts.c_id_policy:replay_exon_ids"}]}
+    return {"cases": n, "bound": "%d random reference / request sets" % n, "violations": [], "samples": [{"seed": base}]}
